@@ -123,7 +123,7 @@ func checkC17(P *Prog, r *Result) {
 			r.ok("C17/field-effects", c, P.pos(fn.Pos()), fmt.Sprintf("writes exactly %v", want))
 		}
 	}
-	r.floor("C17/field-effects", 70)
+	r.floor("C17/field-effects", 40)
 
 	// ---- option-locality ----
 	P.checkOptionLocality(r)
@@ -161,7 +161,7 @@ func checkC17(P *Prog, r *Result) {
 			}
 		})
 	}
-	r.floor("C17/params-local", 15)
+	r.floor("C17/params-local", 6)
 
 	// ---- setcoercer ----
 	for _, k := range R.Kinds {
@@ -295,8 +295,23 @@ func (P *Prog) nonLocalPointerStored(fn *ssa.Function, field string) string {
 
 func (P *Prog) checkNotTypestate(r *Result) {
 	R := P.roles
-	// isNot writers
+	isNotLoad := func(v ssa.Value) bool {
+		_, f := loadOfField(cv(v))
+		return f != nil && f.Name() == "isNot"
+	}
+	// the consumer: the function that branches on the negation flag
 	var consumer *ssa.Function
+	for _, fn := range P.Funcs {
+		eachInstr(fn, func(_ *ssa.BasicBlock, _ int, in ssa.Instruction) {
+			if iff, ok := in.(*ssa.If); ok {
+				c, _ := condKey(iff.Cond)
+				if isNotLoad(c) && fn.Parent() == nil {
+					consumer = fn
+				}
+			}
+		})
+	}
+	// isNot writers
 	nWriters := 0
 	for _, fn := range P.Funcs {
 		eachInstr(fn, func(b *ssa.BasicBlock, _ int, in ssa.Instruction) {
@@ -314,20 +329,10 @@ func (P *Prog) checkNotTypestate(r *Result) {
 			switch {
 			case isC && v && fn.Name() == "Not":
 				r.ok("C17/not-typestate", c, P.ipos(in), "Not() arms the negation")
+			case isC && !v && fn == consumer:
+				r.ok("C17/not-typestate", c, P.ipos(in), "negation cleared by the function that consumes it (its paths are decided below)")
 			case isC && !v:
-				// must be on the edge where isNot was read true
-				guarded := false
-				for _, gd := range guardsOf(b) {
-					if _, f2 := loadOfField(cv(gd.If.Cond)); f2 != nil && f2.Name() == "isNot" && gd.True {
-						guarded = true
-					}
-				}
-				if guarded {
-					consumer = fn
-					r.ok("C17/not-typestate", c, P.ipos(in), "negation cleared on the path that consumed it")
-				} else {
-					r.bad("C17/not-typestate", c, P.ipos(in), "isNot is cleared on a path that did not consume it")
-				}
+				r.bad("C17/not-typestate", c, P.ipos(in), "isNot is cleared on a path that did not consume it")
 			default:
 				r.bad("C17/not-typestate", c, P.ipos(in), "the negation flag is written by something other than Not()/its single consumer")
 			}
@@ -338,7 +343,9 @@ func (P *Prog) checkNotTypestate(r *Result) {
 		return
 	}
 	r.sawFunc(fname(consumer))
-	// consumer structure
+	// consumer structure, on its decision paths (helpers entered): the flag is read before it is
+	// cleared; flag set -> negated wrapper + NotIssueCode(own code) stored + flag cleared;
+	// flag not set -> plain wrapper; exactly one append on every path
 	ws := P.predicateWrappers()
 	var negW, plainW *ssa.Function
 	for _, w := range ws {
@@ -349,77 +356,146 @@ func (P *Prog) checkNotTypestate(r *Result) {
 			plainW = w.fn
 		}
 	}
-	var problems []string
-	var sawNeg, sawPlain, sawFlip, flipStored bool
-	eachInstr(consumer, func(b *ssa.BasicBlock, _ int, in ssa.Instruction) {
-		under := ""
-		for _, gd := range guardsOf(b) {
-			if _, f2 := loadOfField(cv(gd.If.Cond)); f2 != nil && f2.Name() == "isNot" {
-				if gd.True {
-					under = "not"
-				} else {
-					under = "plain"
+	spec := &pathSpec{name: "not-consumer"}
+	spec.keep = func(f *ssa.Function) bool { return f == negW || f == plainW || f.Name() == "NotIssueCode" }
+	spec.cond = func(iff *ssa.If) (string, string, string) {
+		c, neg := condKey(iff.Cond)
+		if !isNotLoad(c) {
+			return "", "", ""
+		}
+		if neg {
+			return "ISNOT", "F", "T"
+		}
+		return "ISNOT", "T", "F"
+	}
+	spec.condAux = func(iff *ssa.If) ssa.Value {
+		c, _ := condKey(iff.Cond)
+		return c
+	}
+	spec.events = func(in ssa.Instruction) []pathItem {
+		switch x := in.(type) {
+		case *ssa.UnOp:
+			if x.Op == token.MUL {
+				if _, f := fieldVar(x.X); f != nil && f.Name() == "isNot" {
+					return []pathItem{{kind: "LOAD-ISNOT", in: in, aux: x}}
 				}
 			}
-		}
-		ci := callOf(in)
-		if ci != nil && ci.static != nil {
-			switch {
-			case ci.static == negW:
-				if under == "not" {
-					sawNeg = true
-				} else {
-					problems = append(problems, "the negated wrapper is used outside the isNot branch")
-				}
-			case ci.static == plainW:
-				if under == "plain" {
-					sawPlain = true
-				} else if under == "not" {
-					problems = append(problems, "the plain wrapper is used on the isNot branch: the test is not negated")
-				}
-			case ci.static.Name() == "NotIssueCode":
-				if under == "not" {
-					sawFlip = true
-					// its result must be stored into the test's IssueCode
-					if c, ok := in.(*ssa.Call); ok && c.Referrers() != nil {
-						for _, rf := range *c.Referrers() {
-							if st, ok := rf.(*ssa.Store); ok {
-								if _, f := fieldVar(st.Addr); f != nil && f.Name() == "IssueCode" {
-									flipStored = true
-								}
+		case *ssa.Store:
+			if _, f := fieldVar(x.Addr); f != nil {
+				switch f.Name() {
+				case "isNot":
+					v := "other"
+					if b, isC := constBool(cv(x.Val)); isC {
+						v = fmt.Sprint(b)
+					}
+					return []pathItem{{kind: "STORE-ISNOT", val: v, in: in}}
+				case "tests":
+					if sameNamed(P.fieldOwner(f), R.KindByName["StringSchema"]) || P.roles.kindFieldSet[f.Origin()] != nil {
+						return []pathItem{{kind: "APPEND", in: in}}
+					}
+				case "IssueCode":
+					if c, ok := cv(x.Val).(*ssa.Call); ok {
+						if ci := callOf(c); ci.static != nil && ci.static.Name() == "NotIssueCode" {
+							v := "own"
+							if _, f2 := loadOfField(cv(ci.args()[0])); f2 == nil || f2.Name() != "IssueCode" {
+								v = "foreign"
 							}
+							return []pathItem{{kind: "FLIP", val: v, in: in}}
 						}
 					}
-					// argument must be the same test's IssueCode
-					if _, f := loadOfField(cv(ci.args()[0])); f == nil || f.Name() != "IssueCode" {
-						problems = append(problems, "NotIssueCode is not applied to the test's own code")
-					}
 				}
 			}
 		}
-	})
+		if ci := callOf(in); ci != nil && ci.static != nil {
+			switch ci.static {
+			case negW:
+				return []pathItem{{kind: "NEG-WRAP", in: in}}
+			case plainW:
+				return []pathItem{{kind: "PLAIN-WRAP", in: in}}
+			}
+		}
+		return nil
+	}
+	res := P.enumPathsSpec(consumer, nil, spec)
+	var problems []string
+	if res.capHit {
+		problems = append(problems, "too many paths to enumerate")
+	}
+	sawNeg, sawPlain := false, false
+	for _, p := range res.paths {
+		if p.end == "PANIC" {
+			continue
+		}
+		note := func(msg string) { problems = append(problems, msg+"  [path: "+p.String()+"]") }
+		var flagVal string
+		var flagLoad ssa.Value
+		cleared, storedBeforeLoad := false, false
+		loadsSeen := map[ssa.Value]bool{}
+		nNeg, nPlain, nFlip, nApp := 0, 0, 0, 0
+		for _, it := range p.items {
+			switch it.kind {
+			case "LOAD-ISNOT":
+				loadsSeen[it.aux] = true
+			case "STORE-ISNOT":
+				if it.val == "false" {
+					cleared = true
+				} else {
+					note("the consumer writes something other than false into the negation flag")
+				}
+				if len(loadsSeen) == 0 {
+					storedBeforeLoad = true
+				}
+			case "ISNOT":
+				flagVal, flagLoad = it.val, it.aux
+			case "NEG-WRAP":
+				nNeg++
+			case "PLAIN-WRAP":
+				nPlain++
+			case "FLIP":
+				nFlip++
+				if it.val != "own" {
+					note("NotIssueCode is not applied to the test's own code")
+				}
+			case "APPEND":
+				nApp++
+			}
+		}
+		_ = flagLoad
+		if storedBeforeLoad {
+			note("the negation flag is overwritten before it is read: a pending Not() is lost")
+		}
+		switch flagVal {
+		case "T":
+			sawNeg = sawNeg || nNeg == 1
+			if nNeg != 1 || nPlain != 0 {
+				note("the isNot branch does not build the test with the negated wrapper")
+			}
+			if nFlip != 1 {
+				note("the isNot branch does not replace the issue code with zconst.NotIssueCode(code)")
+			}
+			if !cleared {
+				note("the negation is not cleared after it was consumed: Not() would negate every later test")
+			}
+		case "F":
+			sawPlain = sawPlain || nPlain == 1
+			if nPlain != 1 || nNeg != 0 {
+				note("the non-negated branch does not build the test with the plain wrapper")
+			}
+			if nFlip != 0 {
+				note("the issue code is negated although Not() was not called")
+			}
+		default:
+			note("a path through the consumer does not look at the negation flag")
+		}
+		if nApp != 1 && strings.HasPrefix(p.end, "RETURN") {
+			note("the test is not appended exactly once on every path")
+		}
+	}
 	if !sawNeg {
 		problems = append(problems, "the isNot branch does not build the test with the negated wrapper")
 	}
 	if !sawPlain {
 		problems = append(problems, "the non-negated branch does not build the test with the plain wrapper")
-	}
-	if !sawFlip || !flipStored {
-		problems = append(problems, "the isNot branch does not replace the issue code with zconst.NotIssueCode(code)")
-	}
-	// exactly one append to tests, reached on every path
-	S := map[*ssa.BasicBlock]bool{}
-	nApp := 0
-	eachInstr(consumer, func(b *ssa.BasicBlock, _ int, in ssa.Instruction) {
-		if st, ok := in.(*ssa.Store); ok {
-			if _, f := fieldVar(st.Addr); f != nil && f.Name() == "tests" {
-				S[b] = true
-				nApp++
-			}
-		}
-	})
-	if ok, _ := mustPassThrough(consumer.Blocks[0], S); !ok || nApp != 1 {
-		problems = append(problems, "the test is not appended exactly once on every path")
 	}
 	if len(problems) > 0 {
 		r.bad("C17/not-typestate", fname(consumer)+"#shape", P.pos(consumer.Pos()), strings.Join(uniqSorted(problems), "; "))
@@ -505,7 +581,7 @@ func (P *Prog) checkNotTypestate(r *Result) {
 	} else {
 		r.broken("anchor zconst.NotIssueCode not found")
 	}
-	r.floor("C17/not-typestate", 16)
+	r.floor("C17/not-typestate", 10)
 	_ = nWriters
 }
 
@@ -515,12 +591,17 @@ func (P *Prog) checkOptionLocality(r *Result) {
 	R := P.roles
 	n := 0
 	for _, fn := range P.Funcs {
-		if fn.Parent() != nil || !fn.Signature.Variadic() {
+		if fn.Parent() != nil || fn.Blocks == nil {
 			continue
 		}
-		last := fn.Signature.Params().At(fn.Signature.Params().Len() - 1)
-		sl, ok := last.Type().Underlying().(*types.Slice)
-		if !ok || P.optionKind(sl.Elem()) != "TestOption" {
+		// the parameter holding the test options (variadic on the API, a plain slice on helpers)
+		var optsParam ssa.Value
+		for _, prm := range fn.Params {
+			if sl, ok := prm.Type().Underlying().(*types.Slice); ok && P.optionKind(sl.Elem()) == "TestOption" {
+				optsParam = prm
+			}
+		}
+		if optsParam == nil {
 			continue
 		}
 		if strings.Contains(funcPkgPath(fn), "/tutils") {
@@ -528,7 +609,6 @@ func (P *Prog) checkOptionLocality(r *Result) {
 		}
 		n++
 		r.sawFunc(fname(fn))
-		optsParam := ssa.Value(fn.Params[len(fn.Params)-1])
 		c := fname(fn)
 		var problems []string
 		invoked, forwarded := false, false
@@ -565,11 +645,8 @@ func (P *Prog) checkOptionLocality(r *Result) {
 					if cv(a) == optsParam {
 						// forwarded: the callee carries this obligation itself
 						cl := ci.static
-						lt := cl.Signature.Params()
-						if cl.Signature.Variadic() && lt.Len() > 0 {
-							if s2, ok := lt.At(lt.Len() - 1).Type().Underlying().(*types.Slice); ok && P.optionKind(s2.Elem()) == "TestOption" {
-								forwarded = true
-							}
+						if cl.Blocks != nil && inModule(funcPkgPath(cl)) {
+							forwarded = true
 						}
 					}
 				}
@@ -592,7 +669,7 @@ func (P *Prog) checkOptionLocality(r *Result) {
 			r.ok("C17/option-locality", c, P.pos(fn.Pos()), how)
 		}
 	}
-	r.floor("C17/option-locality", 40)
+	r.floor("C17/option-locality", 30)
 }
 
 // testLocalIsResult: the local Test `al` is what ends up in the schema: its
